@@ -5,10 +5,10 @@
 (* CLI) on a scenario exported from PretextView.tla.  The clauses of RemapProps.tla are evaluated   *)
 (* on the recorded real outputs; Props selects which properties' clauses are evaluated.             *)
 (***************************************************************************************************)
-EXTENDS NamingProps, RemapNaming, Json, IOUtils, TLCExt
+EXTENDS Reports, RemapNaming, Json, IOUtils, TLCExt
 CONSTANT Props
 Traces == JsonDeserialize(IOEnv.TRACE_FILE)
-ASSUME TLCSet(1, 0) /\ TLCSet(2, 0) /\ TLCSet(3, 0) /\ TLCSet(4, 0) /\ TLCSet(5, 0) /\ TLCSet(6, 0)
+ASSUME TLCSet(1, 0) /\ TLCSet(2, 0) /\ TLCSet(3, 0) /\ TLCSet(4, 0) /\ TLCSet(5, 0) /\ TLCSet(6, 0) /\ TLCSet(7, 0) /\ TLCSet(8, 0) /\ TLCSet(9, 0)
 VARIABLE tn
 Say(T, clause, detail) == PrintT(<<"V", T.tid, clause, detail>>)
 HasRev(T) == \E c \in Range(InContigs(T)) : c.st = -1
@@ -47,7 +47,12 @@ J09(T) == ("C09" \in Props /\ Ok(T)) =>
   /\ (RoutedByTag(T) \/ Say(T, "C09.routed_by_tag", Cls(T)))
   /\ (OneAssemblyPerHaplotype(T) \/ Say(T, "C09.one_assembly_per_haplotype", Cls(T)))
   /\ (AbsentRouted(T) \/ Say(T, "C09.absent_sequence_routed", "contig-naming=" \o T.naming \o "/scaffold-names=" \o T.style))
-J10(T) == ("C10" \in Props /\ Ok(T)) =>
+\* the uniqueness clause alone on maps of the PretextView model (cut, moved, tagged pieces; sequence absent from the map): input names there
+\* (S1, HAP1_SCAFFOLD_1, ...) are outside the generated namespaces
+J10u(T) == ("C10" \in Props /\ Ok(T) /\ "nhaps" \notin DOMAIN T /\ "route" \notin DOMAIN T) =>
+  /\ Count(3, Len(T.out))
+  /\ (UniqueNames(T) \/ Say(T, "C10.unique_names", "pretextview-map/contig-naming=" \o T.naming \o "/scaffold-names=" \o T.style))
+J10(T) == ("C10" \in Props /\ Ok(T) /\ "nhaps" \in DOMAIN T) =>
   IF ~AllPlaced(T) THEN Say(T, "C10.unique_names", "piece-missing-from-output")
   ELSE
   /\ Count(3, Cardinality(ChrGroups(T)))
@@ -63,7 +68,7 @@ J10(T) == ("C10" \in Props /\ Ok(T)) =>
   /\ ((CsvPresent(T) /\ CsvMatches(T)) \/ Say(T, "C10.chromosome_csv", T.cls))
 \* M-clause "naming": assembly key, name, rank and rows of every output scaffold as the naming-layer model (RemapNaming.tla) predicts;
 \* single-haplotype (plain-named) scenarios only
-JNaming(T) == ("MODEL" \in Props /\ T.style = "plain" /\ T.status # "hang" /\ T.valid = 1) =>
+JNaming(T) == ("MODEL" \in Props /\ T.style = "plain" /\ T.status # "hang" /\ T.valid = 1 /\ "route" \notin DOMAIN T) =>
   LET m == PipelineN(T.input, T.map, ErrLenT(T), TRUE, TRUE, TRUE)
       pfx == IF "prefix" \in DOMAIN T THEN T.prefix ELSE "SUPER_"
       mo == {[asm |-> IF m.out[q].asm = "none" THEN "" ELSE m.out[q].asm, name |-> RenderName(m.out[q].name, m.out[q].rank, pfx), rank |-> m.out[q].rank,
@@ -81,17 +86,36 @@ JModel(T) == ("MODEL" \in Props /\ Untagged(T) /\ T.style = "plain" /\ T.status 
   /\ (p.ok = Ok(T) \/ PrintT(<<"M", T.tid, "pipeline_status", Cls(T)>>))
   /\ (~(p.ok /\ Ok(T)) \/ p.cuts = T.stats.cuts \/ PrintT(<<"M", T.tid, "pipeline_cuts", Cls(T)>>))
   /\ (~(p.ok /\ Ok(T)) \/ RowBag(p.fused) = RowBag(T.out) \/ PrintT(<<"M", T.tid, "pipeline_fused_rows", Cls(T)>>))
+\* M-clauses "reports": the chromosome report, the per-assembly break / join counts and the two sanity warnings say what Reports.tla derives
+\* from the recorded output scaffolds (Chromosomes.tla scenarios, recorded with the reports)
+JReports(T) == ("MODEL" \in Props /\ Ok(T) /\ "report" \in DOMAIN T /\ AllPlaced(T)) =>
+  /\ Count(7, Len(T.report))
+  /\ (ChrReportMatches(T) \/ PrintT(<<"M", T.tid, "chr_report", T.cls>>))
+  /\ (SanityMatches(T) \/ PrintT(<<"M", T.tid, "sanity_warnings", T.cls>>))
+  /\ Count(8, T.sanity.mismatch + Len(T.sanity.large))
+JPas(T) == ("MODEL" \in Props /\ Ok(T) /\ "pas" \in DOMAIN T) =>
+  /\ Count(9, Len(T.pas))
+  /\ (PasMatches(T) \/ PrintT(<<"M", T.tid, "per_assembly_stats", T.cls>>))
+  /\ (PasBreaksAddUp(T) \/ PrintT(<<"M", T.tid, "per_assembly_breaks_add_up", T.cls>>))
 \* through the command line tool: the haplotig-removal count of the info yaml equals the number of haplotig scaffolds written
 J11cli(T) == ("C11" \in Props /\ Ok(T) /\ T.style = "cli") =>
   (T.yaml_haplotig_removals = T.haplotig_scaffolds_written \/ Say(T, "C11.haplotig_removals", T.cls))
+\* a scenario run through the command line tool (route = cli): T.stats holds the numbers of the log line "Curation made ..."; the info yaml
+\* repeats the totals when it lists more than one assembly, and always holds the haplotig-removal count
+J11route(T) == ("C11" \in Props /\ Ok(T) /\ "route" \in DOMAIN T) =>
+  /\ ((T.log_stats.cuts >= 0 /\ T.yaml.present = 1) \/ Say(T, "C11.report_missing", T.cls))
+  /\ (T.yaml.breaks < 0 \/ T.yaml.breaks = BreaksDef(T) \/ Say(T, "C11.yaml_breaks", Cls(T)))
+  /\ (T.yaml.joins < 0 \/ T.yaml.joins = JoinsDef(T) \/ Say(T, "C11.yaml_joins", Cls(T)))
+  /\ (T.yaml.haplotig_removals = T.haplotig_scaffolds_written \/ Say(T, "C11.haplotig_removals", T.cls))
 J11(T) == ("C11" \in Props /\ Ok(T) /\ T.style # "cli") =>
   /\ (T.stats.cuts = CutsDef(T) \/ Say(T, "C11.cuts", Cls(T)))
   /\ (T.stats.breaks = BreaksDef(T) \/ Say(T, "C11.breaks", Cls(T)))
   /\ (T.stats.joins = JoinsDef(T) \/ Say(T, "C11.joins", Cls(T)))
-Judge(T) == Count(1, 1) /\ J01(T) /\ J02(T) /\ J07(T) /\ J08(T) /\ J08p(T) /\ J09(T) /\ J10(T) /\ J11(T) /\ J11cli(T) /\ JModel(T) /\ JNaming(T)
+Judge(T) == Count(1, 1) /\ J01(T) /\ J02(T) /\ J07(T) /\ J08(T) /\ J08p(T) /\ J09(T) /\ J10(T) /\ J10u(T) /\ J11(T) /\ J11cli(T) /\ J11route(T) /\ JModel(T) /\ JNaming(T) /\ JReports(T) /\ JPas(T)
 TInit == tn = 0
 TNext == tn < Len(Traces) /\ tn' = tn + 1 /\ Judge(Traces[tn + 1]) = TRUE
 TraceSpec == TInit /\ [][TNext]_tn
 Post == /\ PrintT(<<"JUDGED", TLCGet(1)>>) /\ PrintT(<<"N", "completed_runs", TLCGet(2)>>) /\ PrintT(<<"N", "pieces_with_core", TLCGet(3)>>)
         /\ PrintT(<<"N", "deep_cuts", TLCGet(4)>>) /\ PrintT(<<"N", "output_junctions", TLCGet(5)>>) /\ PrintT(<<"N", "null_maps", TLCGet(6)>>)
+        /\ PrintT(<<"N", "report_rows", TLCGet(7)>>) /\ PrintT(<<"N", "sanity_warnings", TLCGet(8)>>) /\ PrintT(<<"N", "per_assembly_stat_entries", TLCGet(9)>>)
 ====
